@@ -106,9 +106,17 @@ def files(ctx: Ctx):
     ctx.sample({'targetons': designs[0]['targetons'], 'pam': designs[0].get('pam')})
 
 
+def bg_accept(kind: str, what: str) -> bool:
+    return kind.startswith(('mave', 'row_columns:mave', 'row_columns:background_variants', 'background_variants', 'refused'))
+
+
 def run(ctx: Ctx):
     sweep(ctx)
     files(ctx)
+    # with background variants the offsets of mave_nt / mave_nt_ref are reference offsets and background_variants are stated
+    # against ref_seq: checked through the relation with the same design on the pre-edited genome (C06's metamorphic pair)
+    from . import c06
+    c06.background_stage(ctx, ctx.n(50, 500), bg_accept)
     return {'rule': 'S-api: get_mave_nt over every variant type x REF/ALT lengths 0-4 x 5 offsets (incl. before the targeton) against the Coq printer and the '
                     'documented grammar; S-file: random SGE designs rich in PAM edits and custom insertions (and cDNA designs): every row compared with the Coq '
                     'model of the to_csv loop body on the recorded MetaRow (mave columns) and decoded by an independent parser: mave_nt applied to pam_seq = oligo, '
@@ -131,6 +139,14 @@ def replay(ctx: Ctx, path: str) -> int:
     with open(path) as fh:
         v = json.load(fh)
     c = v.get('case', {})
+    if c.get('via') == 'background_pair':
+        from . import c06
+        common.use_repo()
+        if c06.replay_background(ctx, c, bg_accept):
+            print(f'VIOLATION property=C10 replay={path}')
+            return 1
+        print('replay: property holds on this input now')
+        return 0
     ctx.known = []
     if c.get('surface') == 'api' and 'case' in c:
         common.use_repo()
